@@ -118,4 +118,5 @@ def check(seed, n):
                                        " ".join(real.split())[:120], " ".join(exp.split())[:120])})
     ans = proto.run_herad(reqs)
     dis = [{"stream": "ifdef", "case": {"text": c}, "model": a[:500], "impl": r[:500]} for c, a, r in zip(cases, ans, reals) if a != r]
-    return {"evaluations": len(cases), "violations": violations, "disagreements": dis}
+    return {"evaluations": len(cases), "violations": violations, "disagreements": dis,
+            "distinct": len({c for c in cases if "#" in c})}
